@@ -57,6 +57,12 @@ Parts(ty, off) ==
       [] ty.k = "Dual3"     -> {<<>>, <<s(1)>>, <<s(1), s(1)>>, <<s(1), s(1), s(1)>>}
       [] ty.k = "HyperDual" -> {<<>>, <<s(1)>>, <<s(2)>>, <<s(1), s(2)>>}
       [] ty.k = "HHD"       -> A!SubSeqs(<<s(1), s(2), s(3)>>)
+      \* vector types (outer level only)
+      [] ty.k = "DualVec"   -> {<<>>} \cup {<<i>> : i \in 1..ty.n}
+      [] ty.k = "Dual2Vec"  -> {<<>>} \cup {<<i>> : i \in 1..ty.n} \cup {<<i, j>> : i \in 1..ty.n, j \in 1..ty.n}
+      [] ty.k = "HyperDualVec" ->
+            {<<>>} \cup {<<i>> : i \in 1..ty.m} \cup {<<ty.m + j>> : j \in 1..ty.n}
+                   \cup {<<i, ty.m + j>> : i \in 1..ty.m, j \in 1..ty.n}
 FieldOf(ty, mm, off) ==      \* the stored field that holds the part mm
     LET n == Len(mm) IN
     IF n = 0 THEN "re"
@@ -72,12 +78,31 @@ InnerOff == 10
 \* flattened jet of an outer value whose scalars are inner values
 PartsN(to, ti) == {mo \o mi : mo \in Parts(to, 0), mi \in Parts(ti, InnerOff)}
 Split(mm) == LET k == Cardinality({i \in 1..Len(mm) : mm[i] < InnerOff}) IN <<SubSeq(mm, 1, k), SubSeq(mm, k + 1, Len(mm))>>
+\* the inner number stored at the outer part mo (vector types: a matrix entry; an absent part stands for inner zeros)
+OuterPart(to, ti, v, mo) ==
+    IF mo = <<>> THEN v.re
+    ELSE CASE to.k = "DualVec"  -> NB(ti)!Dense(v.eps, to.n, 1)[mo[1]][1]
+      [] to.k = "Dual2Vec" -> IF Len(mo) = 1 THEN NB(ti)!Dense(v.v1, 1, to.n)[1][mo[1]] ELSE NB(ti)!Dense(v.v2, to.n, to.n)[mo[1]][mo[2]]
+      [] to.k = "HyperDualVec" ->
+            IF Len(mo) = 2 THEN NB(ti)!Dense(v.eps1eps2, to.m, to.n)[mo[1]][mo[2] - to.m]
+            ELSE IF mo[1] <= to.m THEN NB(ti)!Dense(v.eps1, to.m, 1)[mo[1]][1]
+            ELSE NB(ti)!Dense(v.eps2, 1, to.n)[1][mo[1] - to.m]
+      [] OTHER -> v[FieldOf(to, mo, 0)]
 AbsJetN(to, ti, v) ==
-    [mm \in PartsN(to, ti) |-> LET s == Split(mm) IN v[FieldOf(to, s[1], 0)][FieldOf(ti, s[2], InnerOff)]]
+    [mm \in PartsN(to, ti) |-> LET s == Split(mm) IN OuterPart(to, ti, v, s[1])[FieldOf(ti, s[2], InnerOff)]]
 
 \* symbolic operand: one indeterminate per innermost scalar
+SymInner(ti, nm) == [fi \in {"re"} \cup I!FieldSet(ti) |-> PVar(nm \o "." \o fi)]
 SymN(to, ti, nm) ==
-    [fo \in {"re"} \cup I!FieldSet(to) |-> [fi \in {"re"} \cup I!FieldSet(ti) |-> PVar(nm \o "." \o fo \o "." \o fi)]]
+    [fo \in {"re"} \cup I!FieldSet(to) |-> SymInner(ti, nm \o "." \o fo)]
+\* vector outer type with a presence pattern: every entry of a present part is an inner number of indeterminates
+SymNV(to, ti, nm, pres) ==
+    [fo \in {"re"} \cup I!FieldSet(to) |->
+        IF fo = "re" THEN SymInner(ti, nm \o ".re")
+        ELSE IF pres[fo]
+             THEN LET d == I!PartDims(to, fo)
+                  IN  I!Some(I!Mat(d[1], d[2], LAMBDA i, j : SymInner(ti, nm \o "." \o fo \o "[" \o ToString(i) \o "," \o ToString(j) \o "]")))
+             ELSE I!None]
 
 \* the outer tower of a generic function: entry k is the inner chain rule over the tower shifted by k
 Fk(k) == PVar("f" \o ToString(k))
@@ -86,9 +111,9 @@ OuterTower(to, ti, x) ==
     <<InnerTower(ti, x.re, 0), InnerTower(ti, x.re, 1), I!G2(I!Order(to), InnerTower(ti, x.re, 2)),
       I!G3(I!Order(to), InnerTower(ti, x.re, 3))>>
 
-Holds(to, ti, op) ==
-    LET a  == SymN(to, ti, "a")
-        b  == SymN(to, ti, "b")
+Holds(to, ti, op, pa, pb) ==
+    LET a  == IF I!IsVec(to) THEN SymNV(to, ti, "a", pa) ELSE SymN(to, ti, "a")
+        b  == IF I!IsVec(to) THEN SymNV(to, ti, "b", pb) ELSE SymN(to, ti, "b")
         ja == AbsJetN(to, ti, a)
         jb == AbsJetN(to, ti, b)
         J(v) == AbsJetN(to, ti, v)
@@ -105,15 +130,22 @@ Ops == {"mul", "div", "add", "sub", "neg", "chain", "from_inner"}
 VARIABLE ob
 Init == ob = [k |-> "root"]
 \* total order at most 4 (what the properties reach: Dual2<Dual2>, Dual3<Dual>, HHD<Dual>, ...) keeps the polynomials small
+NoPres == [f \in {} |-> TRUE]
 Pick == /\ ob.k = "root"
         /\ \E to \in Scalars, ti \in Scalars, op \in Ops :
               /\ I!Order(to) + I!Order(ti) <= 4
-              /\ ob' = [k |-> "ob", to |-> to, ti |-> ti, op |-> op]
-Next == Pick
+              /\ ob' = [k |-> "ob", to |-> to, ti |-> ti, op |-> op, pa |-> NoPres, pb |-> NoPres]
+\* vector types over Dual64 (DualVec<Dual64, f64, N>, ...): every presence pattern of the optional parts
+Vectors == {I!TDualVec(2), I!TDual2Vec(2), I!THyperDualVec(2, 1)}
+PickVec == /\ ob.k = "root"
+           /\ \E to \in Vectors : \E op \in Ops \ {"from_inner"}, pa \in [I!FieldSet(to) -> BOOLEAN], pb \in [I!FieldSet(to) -> BOOLEAN] :
+                 /\ (op \in {"neg", "chain"} => pb = pa)
+                 /\ ob' = [k |-> "ob", to |-> to, ti |-> I!TDual, op |-> op, pa |-> pa, pb |-> pb]
+Next == Pick \/ PickVec
 Spec == Init /\ [][Next]_ob
-RefinesNested == ob.k = "ob" => Holds(ob.to, ob.ti, ob.op)
+RefinesNested == ob.k = "ob" => Holds(ob.to, ob.ti, ob.op, ob.pa, ob.pb)
 \* NDERIV of a nested type is the sum over its levels, and the flattened jet has exactly the stored scalars
-OrderIsSum == ob.k = "ob" =>
+OrderIsSum == ob.k = "ob" /\ ~I!IsVec(ob.to) =>
     /\ Cardinality(PartsN(ob.to, ob.ti)) = (Len(I!Fields(ob.to)) + 1) * (Len(I!Fields(ob.ti)) + 1)
     /\ \A mm \in PartsN(ob.to, ob.ti) : Len(mm) <= I!Order(ob.to) + I!Order(ob.ti)
 =============================================================================
